@@ -62,17 +62,21 @@ def run_case(case, ctx):
                     nontrivial = True
             if saw_bad:
                 labels.append("after-bad-entry")
+        if payload[0] == "import":
+            labels.append("imports-at-the-prompt")
     if nontrivial:
         labels.append("calls-earlier-site")
     labels = sorted(set(labels))
     file_src = "".join(l for l, (k, _) in zip(lines, history) if k == "ok")
-    res, why = run_model(good, None)
+    texts = {path: printer.to_source(stmts)[0] for path, stmts in gen.REPL_FILES.items()}
+    texts.update(gen.REPL_BROKEN)
+    res, why = run_model(good, None, files=gen.REPL_FILES, fibers=True)
     fail = None
     runs = 0
     for v in ("dbg", "rel"):
         w = ctx.worker(v)
-        rr = w.call(mode=W.MODE_REPL, lines=lines, main="/v/repl", budget=400000)
-        rf = w.run(file_src)
+        rr = w.call(mode=W.MODE_REPL, lines=lines, main="/v/repl", files=texts, budget=400000)
+        rf = w.run(file_src, files=texts)
         runs += 2
         session = "".join(lines)
         fail = crash_failure(PROPERTY, rr, session, "repl session on " + v)
